@@ -54,6 +54,9 @@ inductive IOp where
   | persist
   /-- crash; restart from the last written manager (legacy = production reload path) -/
   | crash
+  /-- crash; restart on the reconstruct-from-monitors reload path: the map starts EMPTY (GENERATED interceptsFromDisk true = false), the written
+      events are kept; the committed inbound HTLCs are decoded again afterwards (`intercept` ops for the same ids) -/
+  | crashRebuild
   deriving DecidableEq, Repr, Inhabited
 
 def heldIds (m : IcMgr) : List Nat := m.held.map (·.1)
@@ -70,6 +73,7 @@ def istep (s : ISt) : IOp → ISt
   | .blocks height => { s with live := { s.live with held := s.live.held.filter (fun kv => !interceptTimedOut height kv.2) } }
   | .persist => { s with disk := s.live }
   | .crash => { s with live := reloadI false s.disk, told := [] }
+  | .crashRebuild => { s with live := reloadI true s.disk, told := [] }
 
 def ISt.init : ISt := { live := ⟨[], []⟩, disk := ⟨[], []⟩, told := [] }
 
